@@ -258,8 +258,13 @@ def perturb_nas(kind: str, m, wseed: int) -> None:
     """Make the architectural coefficients generic (distinct, non-uniform) so that 'equal' is never accidental and
     arg-max / binarisation are away from ties.  Written through .data (stand-in for earlier optimizer steps)."""
     gen = torch.Generator().manual_seed(9000 + wseed)
+    # which parameters are architectural is asked of a COPY (named_nas_parameters() is itself one of the read-only calls
+    # C18 puts under test: it is never executed on the live object by the harness)
+    names = [n for n, _ in safe_deepcopy(m)[0].named_nas_parameters()]
+    live = dict(m.named_parameters())
     with torch.no_grad():
-        for n, p in m.named_nas_parameters():
+        for n in names:
+            p = live.get(n)
             if not isinstance(p, nn.Parameter):
                 continue
             if kind == "pit":
@@ -591,8 +596,11 @@ def option_view(kind: str, m, mcopy, executed: set) -> Tuple[Dict[str, Any], str
 def observe(kind: str, m, x: torch.Tensor, ids: Ids, cs: str) -> Dict[str, Any]:
     """fingerprint + bookkeeping fields of the trace format"""
     rng0 = torch.get_rng_state()
+    # the faithful copy first: NOTHING of plinio is executed on the live object by the fingerprint, not even
+    # named_nas_parameters() (torch's own state_dict() / named_parameters() / modules() only)
+    c, dirty, copy_ok = safe_deepcopy(m)
     sd = m.state_dict()
-    nas = nas_names(m)
+    nas = nas_names(c)
     pnames = {n for n, _ in m.named_parameters()}
     tail = lambda k: k.rsplit(".", 1)[-1]
     BN = ("running_mean", "running_var", "num_batches_tracked")
@@ -628,7 +636,6 @@ def observe(kind: str, m, x: torch.Tensor, ids: Ids, cs: str) -> Dict[str, Any]:
     o["cs"] = cs
     # everything below executes code of the model: on faithful copies only.  Cost and summary first, on a copy
     # that has NOT been forwarded (they must see the coefficients as they are stored right now).
-    c, dirty, copy_ok = safe_deepcopy(m)
     o["dirty"] = dirty
     o["copy_ok"] = bool(copy_ok)
     o["dkeys"] = ids.of("dkeys", json.dumps(public_dict_keys(m), sort_keys=True))
